@@ -158,3 +158,13 @@ package invoices
 //@   site call resolveHtlc: assert retn(getUpdatedHtlcState, 0) && retn(getUpdatedHtlcState, 2) == nil &&
 //@        arg(htlc) == htlc && arg(state) == retn(getUpdatedHtlcState, 1) && arg(circuitKey) == key
 //@   site call updateInvoiceAmtPaid: assert arg(invoice) == invoice && arg(amt) == amtPaid
+//@
+//@ func UpdateInvoice
+//@   props C15
+//@   site call cancelHTLCs: assert retn(callback, 0).UpdateType == CancelHTLCsUpdate && arg(0) == invoice && arg(2) == retn(callback, 0) && arg(3) == updater
+//@   site call addHTLCs: assert retn(callback, 0).UpdateType == AddHTLCsUpdate && arg(0) == invoice && arg(1) == hash && arg(3) == retn(callback, 0)
+//@   site call settleHodlInvoice: assert retn(callback, 0).UpdateType == SettleHodlInvoiceUpdate && arg(0) == invoice && arg(1) == hash &&
+//@        arg(3) == retn(callback, 0).State
+//@   site call cancelInvoice: assert retn(callback, 0).UpdateType == CancelInvoiceUpdate && arg(0) == invoice && arg(3) == retn(callback, 0).State
+//@   site call callback: assert arg(0) == retn(CopyInvoice, 0) && retn(CopyInvoice, 1) == nil
+//@   site call Finalize: assert retn(callback, 1) == nil && retn(callback, 0) != nil
